@@ -131,7 +131,11 @@ def driver_call(requests, timeout=1800):
     """batch call: list of dict -> list of dict ({'ok':..} or {'err':..})"""
     if not requests:
         return []
-    if not os.path.exists(DRIVER):
+    for _ in range(120):            # another process may be re-linking the driver right now
+        if os.path.exists(DRIVER):
+            break
+        time.sleep(1.0)
+    else:
         raise Infra("driver executable missing")
     inp = "\n".join(json.dumps(r, separators=(",", ":")) for r in requests) + "\n"
     p = subprocess.run([DRIVER], input=inp, stdout=subprocess.PIPE, stderr=subprocess.PIPE, text=True,
